@@ -95,6 +95,13 @@ class AstMap:
             new_list.append(value)
 
         x_table[key] = new_list
+        # a placeholder stands for one identifier in the whole match, whichever table records it
+        if key not in self.conflict_keys:
+            for table in (self.symbol_table, self.func_table, self.class_table):
+                if table is not x_table and key in table:
+                    if any(value.id != other.id for other in table[key]):
+                        self.conflict_keys.append(key)
+                        break
         return len(self.conflict_keys)
 
     def add_class_to_sym_table(self, ins_node, std_node):
